@@ -33,8 +33,17 @@ class Worker:
         self.hashseed = hashseed
         self.prelude = prelude
         self.label = label
-        env = driver.child_env(hashseed=hashseed)
-        env.pop("VERIF_CHILD", None)
+        # a canonical environment: the interpreter's address layout must be a
+        # function of (hash seed, prelude, commands), not of whatever the
+        # orchestrator's environment happens to contain (importing pyopencl, for
+        # one, adds PYOPENCL_HOME to os.environ)
+        full = driver.child_env(hashseed=hashseed)
+        keep = ("PATH", "HOME", "LANG", "LC_ALL", "PYTHONPATH",
+                "VERIF_PYTATO_ROOT", "PYTHONHASHSEED", "LOOPY_NO_CACHE",
+                "PYTHONDONTWRITEBYTECODE", "PYTHONWARNINGS", "OMP_NUM_THREADS",
+                "OPENBLAS_NUM_THREADS", "XDG_CACHE_HOME", "VIRTUAL_ENV")
+        env = {k: full[k] for k in keep if k in full}
+        env["PYTOOLS_LOG_NO_THREADS"] = "1"
         self.proc = subprocess.Popen(
             [*_SETARCH, driver.PYTHON, "-X", "faulthandler", WORKER,
              str(prelude)],
